@@ -2,7 +2,7 @@
 from vf import rt, scen, world as W
 from vf.commands import C
 from vf.runner import CH
-from harness import common as K
+from harness import common as K, kpair
 
 PARTITION = None
 MOD = 'harness.c11'
@@ -16,20 +16,6 @@ META = {
                    'symlink, command; oracle: everything outside files/ and info/ is snapshot-identical.',
     'assumptions': ['PosixModel fidelity incl. unlink(dir)=EISDIR, rmtree refusing links (./check MODEL)'],
 }
-
-
-def k_backup_path(name: str) -> str:
-    """
-    pre: len(name) <= (PARTITION or 5)
-    pre: '/' not in name
-    post: _ == ''
-    """
-    rt.begin()
-    from trashcli.lib.path_of_backup_copy import path_of_backup_copy
-    got = path_of_backup_copy('/t/info/' + name + '.trashinfo')
-    if got != '/t/files/' + name:
-        return rt.fail('C11:payload-path', 'path_of_backup_copy(/t/info/%r.trashinfo) = %r' % (name, got))
-    return rt.ok()
 
 
 PAYLOADS = ['link-abs-file', 'link-abs-dir', 'link-rel-file', 'link-rel-dir', 'dangling', 'tree-with-links', 'plain',
@@ -157,9 +143,7 @@ def w_main(pk: int, iname: int, cmd: int, via: int) -> str:
 
 
 def obligations(tier):
-    return [
-        CH('K_backup_path_all_names', MOD, 'k_backup_path', timeout=120 if tier == 'quick' else 900, partitions=[5 if tier == 'quick' else 9], engine='K', regime='traced',
-           encodes=['trashcli.lib.path_of_backup_copy.path_of_backup_copy'], bounds="info base name: any str without '/', len<=%d" % (5 if tier == 'quick' else 9)),
+    return kpair.obligations(tier) + [
         CH('W_payload_x_name_x_cmd_x_via', MOD, 'w_main', timeout=900, partitions=list(range(11)), engine='W', regime='selector',
            encodes=K.EMPTY_FUNCS + K.RM_FUNCS + ['RealRemoveFile2.remove_file2', 'shutil.rmtree (CPython source over the model)'],
            stubs=K.STUBS, bounds='11 payload shapes x 9 info names (incl. crafted .trashinfo, ..trashinfo, ...trashinfo) x 9 commands (incl. one refused unlink/rmdir inside the trashed tree) x 3 ways of reaching the trash dir'),
